@@ -83,7 +83,7 @@ class ConvKind(Kind):
     explain_fn = 'c08_explain'
     shard = 120
     rule = ('scared.<X>Attack(convergence_step=k).run(Container) 1-3 times under set_batch_size(bs): exhaustive small scope '
-            '(quick: sub-grid of N<=30 x bs<=12 u {40} x step<=32 u {50} for CPA, every attack class on a smaller sub-grid; thorough: the '
+            '(quick: boundary block + seed-sampled triples of N<=30 x bs<=12 u {40} x step<=32 u {50} for CPA, every attack class on a smaller sub-grid; thorough: the '
             'full grid for CPA, a larger sub-grid for every class), random sequences of 1-3 runs with different batch sizes; step smaller / '
             'equal / larger than bs, larger than N, not dividing N; compute_results() calls, column counts, marks compared with the state '
             'machine in Coq; every column compared with a fresh attack on the prefix; non-trivial = at least two columns')
